@@ -117,4 +117,16 @@ theorem links_of_linksOK {n : Node} (hn : linksOK n = true) :
     simp only [linksOK] at this
     exact (kidsOK_mem id cs this c hc).1
 
+theorem textOf_erase : ∀ n : Node, n.textOf = n.erase.textOf
+  | .text _ _ t => by simp [Node.textOf, Node.erase, Tree.textOf]
+  | .elem _ _ _ _ [] => by simp [Node.textOf, Node.erase, eraseList, Tree.textOf]
+  | .elem _ _ _ _ (c :: r) => by
+    simp only [Node.textOf, Node.erase, eraseList, Tree.textOf]
+    exact textOf_erase c
+
+theorem textOf_clearParent (n : Node) : n.clearParent.textOf = n.textOf := by
+  cases n with
+  | text => rfl
+  | elem i p t a cs => cases cs <;> rfl
+
 end AslProofs.Xml
